@@ -106,7 +106,7 @@ type Play struct {
 	// Sel: chosen disclosure sites (repo path syntax).
 	Sel []string `json:"sel"`
 	// Attack: "" | foreign | foreign-crafted | duplicate | alter-value | alter-name | alter-salt | reencode |
-	// orphan | arity4 | arity1 | garbage | as-element | bad-issuer-sig
+	// orphan | arity4 | arity1 | garbage | as-element | bad-issuer-sig | dup-digest
 	Attack string `json:"attack,omitempty"`
 	// holder binding
 	HB       string `json:"hb,omitempty"` // "" none | holder | attacker
@@ -1036,6 +1036,10 @@ func (r *runner) play(sc *Scenario, is *issued, p *Play, dist []string) {
 	}
 
 	cfp := common.ParseCombinedFormatForPresentation(pres)
+	if perr == nil {
+		// what the holder really hands over (not what it was asked to)
+		presented = append([]string{}, cfp.Disclosures...)
+	}
 
 	// --- attacks on the presentation (the attacker re-assembles the combined format)
 	craft := func(arr ...interface{}) string { return reencode(arr, 0) }
@@ -1111,6 +1115,29 @@ func (r *runner) play(sc *Scenario, is *issued, p *Play, dist []string) {
 
 			replaceVictim(reencode([]interface{}{victim.salt, victim.val}, 0))
 		}
+	case "dup-digest":
+		// a dishonest issuer places the digest of a disclosure twice in the payload it signs
+		if victim == nil {
+			return
+		}
+
+		mod, _ := plain(is.payload).(map[string]interface{})
+		mod["zz"] = map[string]interface{}{common.SDKey: []interface{}{hashOf(o.Alg, victimStr)}}
+
+		tok, err := afjwt.NewSigned(mod, nil, pIssuer.signer)
+		if err != nil {
+			return
+		}
+
+		ser, err := tok.Serialize(false)
+		if err != nil {
+			return
+		}
+
+		is2 := *is
+		is2.payload = mod
+		is = &is2
+		cfp.SDJWT = ser
 	case "arity1":
 		presented = append(presented, craft("c2FsdA"))
 	case "garbage":
@@ -1461,7 +1488,7 @@ func stripNulls(v interface{}) interface{} {
 }
 
 var attacks = []string{"foreign", "foreign-crafted", "duplicate", "alter-value", "alter-name", "alter-salt", "reencode", "arity4",
-	"as-element", "arity1", "garbage", "bad-issuer-sig"}
+	"as-element", "arity1", "garbage", "bad-issuer-sig", "dup-digest"}
 
 func hbPlays(sel []string) []Play {
 	base := Play{Sel: sel}
@@ -1536,7 +1563,7 @@ func main() {
 	rng := hx.NewRng(args.Seed)
 	thorough := args.Tier == "thorough"
 
-	nExh, nAtt, nRand := 60, 50, 150
+	nExh, nAtt, nRand := 120, 100, 300
 	if thorough {
 		nExh, nAtt, nRand = 400, 400, 2500
 	}
